@@ -1,19 +1,114 @@
-"""Application-session layer (ITCH / OUCH / SQF client sessions on top of a SoupBinTCP client session): scenarios evaluated by
-the property oracles only.  The Lean session machine does not model this layer (second queue, its dispatcher, the close event);
-C04 / C05 / C06 / C11 say so in their evidence notes."""
+"""Application-session layer (ITCH / OUCH / SQF / ASN.1 client sessions on top of a SoupBinTCP client session).
+
+Every scenario is run on the real classes under virtual time with every task step logged, and
+
+* the step log is replayed through the Lean product machine `Model/AppSession.lean` (inner session machine x application layer:
+  second queue, its dispatcher `D2` and receive helper `V2`, the close event, `_on_soup_message`, `_on_soup_close`) with the
+  driver op `app.run`: per event the model says whether the event was enabled, which observables it predicts (inner and
+  application callbacks, results of `app.close()` / `receive_message()` / soup calls, writes, transport close), which tasks are
+  runnable / alive afterwards and the flags (`is_closed()`, `app.closed`, queue stopped, close event, queue length, dispatcher set);
+* the property oracles (C04 / C05 / C06) are evaluated on the implementation's behaviour alone.
+
+Task roles: R D L M C V U<i> are the soup session's (as in sess_common), D2 = the application queue's dispatcher (task name
+`<kind>-<soup id>-dispatcher`), V2 = the `Queue.get` helper of the application queue, W<i> = user tasks calling the application session.
+"""
 import asyncio
+import asyncio.tasks as _tasks
+import os
 import random
+import sys
+import tempfile
 
-from common import err_name
+from common import err_name, sx, parse_sx
 from vloop import VirtualLoop, FakeTransport
+import sess_common as SC
 
+KINDS = ['itch', 'ouch', 'sqf', 'asn1']
+SLEEP_STEP = 0.00015      # one timer of a sleeping callback: a bit more than a reader poll
+# model variant, PINNED to the code as it is: does `_on_soup_close` set `closed = True` before (True, the repaired order) or after
+# (False, up to commit 35c133f) `await self._message_queue.stop()`
+CLOSED_FIRST = bool(int(os.environ.get('VERIF_APP_CLOSED_FIRST', '0')))
+# message callbacks whose cancellation clean-up awaits app.close() (deadlock with CLOSED_FIRST = False: fixes/C05-app-close-in-cancel-cleanup.md)
+GEN_CLOSE_ON_CANCEL = CLOSED_FIRST
+FALSY = 0            # token of the falsy value `{}` an ASN.1 decode error yields
 _DEFS = {}
+_ASN1_OK = None
+
+
+def asn1_available():
+    global _ASN1_OK
+    if _ASN1_OK is None:
+        try:
+            import asn1tools  # noqa
+            from nasdaq_protocols import asn1_app  # noqa
+            _ASN1_OK = True
+        except Exception:   # noqa
+            _ASN1_OK = False
+    return _ASN1_OK
+
+
+def _wrap_session(base_cls, **class_kw):
+    """observation only: the callbacks the application session installs on the soup session"""
+
+    class Session(base_cls, **class_kw):
+        async def _on_soup_message(self, message):
+            rec = REC
+            n = inner_token(message)
+            if rec is not None:
+                rec.obs.append(['imsgEnter', n])
+            try:
+                await super()._on_soup_message(message)
+            except asyncio.CancelledError:
+                if rec is not None:
+                    rec.obs.append(['imsgAbandon', n])
+                raise
+            except Exception:   # noqa
+                if rec is not None:
+                    rec.obs.append(['imsgRaise', n])
+                raise
+            if rec is not None:
+                rec.obs.append(['imsgExit', n])
+
+        async def _on_soup_close(self):
+            rec = REC
+            if rec is not None:
+                rec.obs.append('icbEnter')
+            await super()._on_soup_close()
+            if rec is not None:
+                rec.obs.append('icbExit')
+    return Session
 
 
 def app_defs(kind):
-    """one tiny application per protocol, written the way the code generator writes it (application base class with its
-    own app_name, ClientSession subclass decoding through it); defined once per process (registries are global)"""
+    """one tiny application per protocol, written the way the code generator writes it; defined once per process (registries are
+    global).  -> (session class, payload(n) -> bytes of a decodable message carrying n, token(decoded message) -> int)"""
     if kind in _DEFS:
+        return _DEFS[kind]
+    if kind == 'asn1':
+        from nasdaq_protocols import asn1_app
+        d = tempfile.mkdtemp(prefix='vf_asn1_')
+        pkg = os.path.join(d, 'vf_asn1spec')
+        os.makedirs(pkg)
+        open(os.path.join(pkg, '__init__.py'), 'w').close()
+        with open(os.path.join(pkg, 'vf.asn1'), 'w') as f:
+            f.write('VfApp DEFINITIONS AUTOMATIC TAGS ::= BEGIN\nVfMsg ::= SEQUENCE { n INTEGER OPTIONAL }\nEND\n')
+        sys.path.insert(0, d)
+
+        class VfSpec(asn1_app.Asn1Spec, spec_name='VfAsn1App', spec_pkg_dir='vf_asn1spec'):
+            pass
+
+        class VfAsnMsg(asn1_app.Asn1Message, spec=VfSpec, pdu_name='VfMsg'):
+            pass
+
+        class Base(asn1_app.Asn1SoupClientSession, asn1_message=VfAsnMsg):
+            pass
+
+        def payload(n):
+            return bytes(VfSpec.Spec.encode('VfMsg', {'n': n}))
+
+        def token(m):
+            return m['n'] if m else FALSY      # `{}`: a decode error, or the valid pdu `30 00` (all-OPTIONAL SEQUENCE, nothing present)
+        _DEFS[kind] = (_wrap_session(Base, asn1_message=VfAsnMsg), payload, token)
         return _DEFS[kind]
     from nasdaq_protocols.common import Record, Field, LongBE
     from nasdaq_protocols import itch, ouch, sqf
@@ -31,200 +126,887 @@ def app_defs(kind):
         class BodyRecord(Record):
             Fields = [Field('n', LongBE)]
 
-    class Session(impl.ClientSession):
+    class Sess0(impl.ClientSession):
         @classmethod
         def decode(cls, bytes_):
             return Base.from_bytes(bytes_)
 
-    _DEFS[kind] = (Session, VfMsg, Base)
+    def payload(n):
+        m = VfMsg()
+        m.n = n
+        return m.to_bytes()[1]
+
+    def token(m):
+        return m.n
+    cls = _wrap_session(Sess0)
+    cls.VfMsg = VfMsg
+    _DEFS[kind] = (cls, payload, token)
     return _DEFS[kind]
 
 
-def run_app_scenario(kind, mode, cb_beh, msg_beh, script, hb=0.004, settle=0.05):
-    """script items: ('data', [n..]) app messages | ('eos',) peer end of session | ('eof',) | ('close', u) app.close() |
-    ('recv', u) | ('turns', k) | ('advance', dt).  mode: 'pull' | 'callback'.
-    cb_beh / msg_beh[n]: 'ret' | ('await', k) | 'close' (await app.close())."""
-    from nasdaq_protocols import soup
-    sess_cls, msg_cls, base = app_defs(kind)
-    loop = VirtualLoop()
-    obs = []
-    out = {}
+BAD_PREFIX = b'\xff\xfe'      # not a known message indicator / not BER: the application decode fails
+EMPTY_PREFIX = b'\x30\x00\xee'  # ASN.1 only: the valid pdu `30 00` (decodes to the falsy value `{}`); trailing bytes are ignored
 
-    async def beh(b, app):
-        if isinstance(b, tuple):
-            for _ in range(b[1] + 1):
-                await asyncio.sleep(0)
-        elif b == 'close':
+
+def bad_payload(n):
+    return BAD_PREFIX + n.to_bytes(8, 'big')
+
+
+def empty_payload(n):
+    return EMPTY_PREFIX + n.to_bytes(8, 'big')
+
+
+def inner_token(msg):
+    """the token of a soup message handed to `_on_soup_message`"""
+    from nasdaq_protocols import soup
+    if isinstance(msg, soup.LoginAccepted):
+        return 0
+    try:
+        if isinstance(msg, soup.Debug):
+            return int(msg.msg)
+        if isinstance(msg, (soup.SequencedData, soup.UnSequencedData)):
+            data = bytes(msg.data)
+            if data.startswith(BAD_PREFIX):
+                return int.from_bytes(data[2:10], 'big')
+            if data.startswith(EMPTY_PREFIX):
+                return int.from_bytes(data[3:11], 'big')
+            return CUR['tok_of_payload'](data)
+    except Exception:   # noqa
+        return -2
+    return -1
+
+
+CUR = {}
+REC = None
+
+
+# ------------------------------------------------------------------ step logging
+class AppRec:
+    def __init__(self, loop):
+        self.loop = loop
+        self.obs = []
+        self.log = []          # (event, [obs], snapshot)
+        self.roles = {}
+        self.soup = None
+        self.app = None
+        self.kind = None
+
+    def role_of(self, task):
+        r = self.roles.get(id(task))
+        if r is not None:
+            return r
+        name = task.get_name()
+        coro = task.get_coro()
+        qn = getattr(coro, '__qualname__', '')
+        if name.startswith('reader:'):
+            r = 'R'
+        elif name.endswith('-dispatcher'):
+            r = 'D2' if name.startswith(self.kind + '-') else 'D'
+        elif name.endswith('local-monitor-monitor'):
+            r = 'L'
+        elif name.endswith('remote-monitor-monitor'):
+            r = 'M'
+        elif name.startswith('asyncsession-close:'):
+            r = 'C'
+        elif qn == 'Queue.get':
+            q = None
             try:
-                await app.close()
-                obs.append(('inner-close', 'ok'))
+                q = coro.cr_frame.f_locals.get('self')
+            except Exception:   # noqa
+                pass
+            app_q = getattr(getattr(self.app, '_message_queue', None), '_msg_queue', None) if self.app is not None else None
+            r = 'V2' if (q is not None and q is app_q) else 'V'
+        elif name[:1] in ('U', 'W') and name[1:].isdigit():
+            r = name
+        else:
+            r = ''
+        self.roles[id(task)] = r
+        return r
+
+    def _blocking_futures(self):
+        """futures a task may be suspended on that are *not* timers: queue getters and event waiters"""
+        out = []
+        try:
+            out += list(self.soup._msg_queue._msg_queue._getters)
+        except Exception:   # noqa
+            pass
+        if self.app is not None:
+            try:
+                out += list(self.app._message_queue._msg_queue._getters)
+            except Exception:   # noqa
+                pass
+            ev = getattr(self.app, '_close_event', None)
+            if ev is not None:
+                out += list(getattr(ev, '_waiters', []))
+        return out
+
+    def snapshot(self, current=None):
+        run, alive = set(), set()
+        blocking = None
+        for t in self.loop.tasks_created:
+            role = self.role_of(t)
+            if not role or t.done():
+                continue
+            if getattr(t, 'first_ev', None) is not None:
+                continue        # a user task that has not taken its first step: the model learns of it with that step
+            alive.add(role)
+            fw = getattr(t, '_fut_waiter', None)
+            if fw is None or fw.done():
+                run.add(role)
+            elif not isinstance(fw, _tasks._PyTask):
+                if blocking is None:
+                    blocking = self._blocking_futures()
+                if not any(fw is b for b in blocking):
+                    run.add(role)      # a timer (asyncio.sleep): may fire at any time
+        s, app = self.soup, self.app
+        flags = [bool(s.is_closed())]
+        if app is not None:
+            q = app._message_queue
+            ev = app._close_event
+            flags += [bool(app.closed), bool(q.is_stopped()), 'none' if ev is None else ('set' if ev.is_set() else 'unset'),
+                      q._msg_queue.qsize(), q._dispatcher_task is not None]
+        return sorted(run), sorted(alive), flags
+
+
+class LoggingTask(_tasks._PyTask):
+    first_ev = None
+
+    def _Task__step(self, exc=None):
+        rec = REC
+        if rec is None:
+            return super()._Task__step(exc)
+        role = rec.role_of(self)
+        start = len(rec.obs)
+        try:
+            return super()._Task__step(exc)
+        finally:
+            if role:
+                if self.first_ev is not None:
+                    ev, self.first_ev = self.first_ev, None
+                else:
+                    ev = ['run', role]
+                rec.log.append((ev, rec.obs[start:], rec.snapshot()))
+
+
+def _factory(loop, coro, **kw):
+    t = LoggingTask(coro, loop=loop, **kw)
+    loop.tasks_created.append(t)
+    return t
+
+
+# ------------------------------------------------------------------ running one scenario on the implementation
+def norm_scenario(sc):
+    sc = dict(sc)
+    sc.setdefault('has_cb', True)
+    sc.setdefault('first', [])
+    sc.setdefault('hb', 0.004)
+    sc.setdefault('settle', 0.05)
+    return sc
+
+
+def tok_frame(tok, payload):
+    """script token -> (model frame, bytes).  int n: decodable application message n | ('bad', n): sequenced data the application
+    cannot decode | ('empty', n): (ASN.1) a valid pdu that decodes to the falsy value `{}` | ('dbg', n): a soup Debug packet (not
+    SequencedData) | 'hb' | 'eos' | 'badframe' (malformed soup frame)"""
+    from nasdaq_protocols import soup
+    if tok == 'hb':
+        return 'hb', soup.ServerHeartbeat().to_bytes()[1]
+    if tok == 'eos':
+        return 'logout', soup.EndOfSession().to_bytes()[1]
+    if tok == 'badframe':
+        return 'bad', b'\x00\x01?'
+    if isinstance(tok, int):
+        return ['msg', tok], soup.SequencedData(payload(tok)).to_bytes()[1]
+    if tok[0] == 'bad':
+        return ['msg', tok[1]], soup.SequencedData(bad_payload(tok[1])).to_bytes()[1]
+    if tok[0] == 'empty':
+        return ['msg', tok[1]], soup.SequencedData(empty_payload(tok[1])).to_bytes()[1]
+    if tok[0] == 'dbg':
+        return ['msg', tok[1]], soup.Debug(str(tok[1])).to_bytes()[1]
+    raise ValueError(tok)
+
+
+def dec_table(sc):
+    """the `decode` parameter of the model for this scenario: inner token -> skip | fail | (val v)"""
+    tab = {0: 'skip'}
+    for it in [('data', sc.get('first', []))] + list(sc['script']):
+        if it[0] == 'data':
+            for tok in it[1]:
+                if isinstance(tok, (tuple, list)) and tok[0] == 'bad':
+                    tab[tok[1]] = ['val', FALSY] if sc['kind'] == 'asn1' else 'fail'
+                elif isinstance(tok, (tuple, list)) and tok[0] == 'empty':
+                    tab[tok[1]] = ['val', FALSY]
+                elif isinstance(tok, (tuple, list)) and tok[0] == 'dbg':
+                    tab[tok[1]] = 'skip'
+    return tab
+
+
+def run_app_scenario(kind, mode, cb_beh, msg_beh, script, hb=0.004, settle=0.05, has_cb=True, first=()):
+    """script items: ('data', [tok..]) | ('eos',) peer end of session | ('eof',) | ('close', u) app.close() by W<u> |
+    ('recv', u) app.receive_message() by W<u> | ('cancel', u) cancel W<u> | ('sclose', u) soup_session.close() by U<u> |
+    ('scancel', u) cancel U<u> | ('iclose',) soup_session.initiate_close() | ('logout',) | ('send',) | ('hb',) |
+    ('turns', k) | ('advance', dt).  mode: 'pull' | 'callback'.
+    cb_beh / msg_beh[n]: 'ret' | ('await', k) | 'close' (await app.close()) | 'raise' (message callback only).
+    `first`: tokens sent in the same segment as the login acceptance."""
+    global REC
+    from nasdaq_protocols import soup
+    sess_cls, payload, token = app_defs(kind)
+    loop = VirtualLoop()
+    loop.set_task_factory(_factory)
+    rec = AppRec(loop)
+    rec.kind = kind
+    out = {}
+    holder = {'app': None}
+
+    def payload_token(data):
+        return token(sess_cls.decode(data)[1])
+    CUR['tok_of_payload'] = payload_token
+
+    class T(FakeTransport):
+        def write(tself, data):
+            FakeTransport.write(tself, data)
+            rec.obs.append(['w', SC.classify_write(data)])
+
+        def close(tself):
+            FakeTransport.close(tself)
+            rec.obs.append('tclose')
+
+    class Client(soup.SoupClientSession):
+        """observation only: which message `login()` consumed as its reply"""
+        in_login = False
+
+        async def login(self, msg):
+            Client.in_login = True
+            try:
+                return await super().login(msg)
+            finally:
+                Client.in_login = False
+
+        async def receive_msg(self):
+            was_login = Client.in_login
+            m = await super().receive_msg()
+            if was_login:
+                Client.in_login = False
+                rec.obs.append(['loginReply', inner_token(m)])
+            return m
+
+    async def do_close(app, who):
+        try:
+            await app.close()
+            rec.obs.append(who + ['ok'])
+        except asyncio.CancelledError:
+            rec.obs.append(who + ['cancelled'])
+            raise
+        except Exception as e:   # noqa
+            rec.obs.append(who + [err_name(e)])
+
+    async def beh(b, app, who):
+        # ('await', k) / ('cc', k): k+1 loop turns; ('sleep', k) / ('ccsleep', k): k+1 timers of SLEEP_STEP seconds (the model does not
+        # distinguish a turn from a timer: both are `await k`), so that other events can land while the callback is in flight
+        if isinstance(b, (tuple, list)) and b[0] in ('cc', 'ccsleep'):
+            # awaits; if cancelled meanwhile, its clean-up closes the session before letting the cancellation through
+            try:
+                for _ in range(b[1] + 1):
+                    await asyncio.sleep(0 if b[0] == 'cc' else SLEEP_STEP)
             except asyncio.CancelledError:
-                obs.append(('inner-close', 'cancelled'))
+                await do_close(app, who)
                 raise
-            except Exception as e:   # noqa
-                obs.append(('inner-close', err_name(e)))
+        elif isinstance(b, (tuple, list)):
+            for _ in range(b[1] + 1):
+                await asyncio.sleep(0 if b[0] == 'await' else SLEEP_STEP)
+        elif b == 'close':
+            await do_close(app, who)
+        elif b == 'raise':
+            raise RuntimeError('handler failure (scripted)')
+
+    async def on_msg(m):
+        v = token(m)
+        rec.obs.append(['msgEnter', v])
+        try:
+            await beh(msg_beh.get(v, 'ret'), holder['app'], ['hclose', v])
+        except asyncio.CancelledError:
+            rec.obs.append(['msgAbandon', v])
+            raise
+        except RuntimeError:
+            rec.obs.append(['msgRaise', v])
+            raise
+        rec.obs.append(['msgExit', v])
+
+    async def on_close():
+        rec.obs.append('cbEnter')
+        await beh(cb_beh, holder['app'], ['cbclose'])
+        rec.obs.append('cbExit')
+
+    def ext(ev, fn):
+        start = len(rec.obs)
+        try:
+            fn()
+        except Exception as e:   # noqa  (a raising synchronous API call is an observation)
+            rec.obs.append(['raised', err_name(e)])
+        rec.log.append((ev, rec.obs[start:], rec.snapshot()))
+
+    def data_item(toks):
+        frames, buf = [], b''
+        for tok in toks:
+            f, b = tok_frame(tok, payload)
+            frames.append(f)
+            buf += b
+        return ['data'] + frames, buf
 
     async def main():
-        holder = {}
+        s = rec.soup = Client(client_heartbeat_interval=hb, server_heartbeat_interval=hb)
+        tr = T()
+        ext('connect', lambda: s.connection_made(tr))
 
-        async def on_msg(m):
-            obs.append(('msgEnter', m.n))
-            await beh(msg_beh.get(m.n, 'ret'), holder['app'])
-            obs.append(('msgExit', m.n))
-
-        async def on_close():
-            obs.append('cbEnter')
-            await beh(cb_beh, holder['app'])
-            obs.append('cbExit')
-
-        s = soup.SoupClientSession(client_heartbeat_interval=hb, server_heartbeat_interval=hb)
-        tr = FakeTransport()
-        s.connection_made(tr)
-        t = asyncio.create_task(s.login(soup.LoginRequest('u', 'p', 's', '1')))
+        async def login_and_build():
+            # what `<kind>.connect_async` does: log in, then construct the application session in the same step
+            try:
+                await s.login(soup.LoginRequest('u', 'p', 's', '1'))
+            except asyncio.CancelledError:
+                rec.obs.append(['ret', 1, 'cancelled'])
+                raise
+            except Exception as e:   # noqa
+                rec.obs.append(['ret', 1, 'refused' if err_name(e) in ('eoq', 'refused') else err_name(e)])
+                return
+            rec.obs.append(['ret', 1, 'ok'])
+            try:
+                rec.app = holder['app'] = sess_cls(s, on_msg_coro=on_msg if mode == 'callback' else None,
+                                                   on_close_coro=on_close if has_cb else None)
+            except Exception as e:   # noqa
+                rec.obs.append(['raised', err_name(e)])
+        t = loop.create_task(login_and_build(), name='U1')
+        t.first_ev = ['login', 1]
         await asyncio.sleep(0)
-        s.data_received(soup.LoginAccepted('s', 1).to_bytes()[1])
+        acc = soup.LoginAccepted('s', 1).to_bytes()[1]
+        ev2, buf2 = data_item(list(first))
+        ext(['data', ['msg', 0]] + ev2[1:], lambda: s.data_received(acc + buf2))
         await t
-        app = holder['app'] = sess_cls(s, on_msg_coro=on_msg if mode == 'callback' else None, on_close_coro=on_close)
         users = {}
 
         async def call(u, what):
+            app = holder['app']
             try:
                 if what == 'close':
                     await app.close()
                     r = 'ok'
+                elif what == 'sclose':
+                    await s.close()
+                    r = 'ok'
                 else:
                     m = await app.receive_message()
-                    r = ('msg', m.n)
+                    r = ['msg', token(m)]
             except asyncio.CancelledError:
                 r = 'cancelled'
             except Exception as e:   # noqa
                 r = err_name(e)
-            obs.append(('ret', u, r))
+            rec.obs.append([{'sclose': 'ret', 'close': 'cret'}.get(what, 'aret'), u, r])
 
         for it in script:
             k = it[0]
+            app = holder['app']
             if k == 'data':
-                buf = b''
-                for n in it[1]:
-                    m = msg_cls()
-                    m.n = n
-                    buf += soup.SequencedData(m.to_bytes()[1]).to_bytes()[1]
-                s.data_received(buf)
+                ev, buf = data_item(it[1])
+                ext(ev, lambda: s.data_received(buf))
             elif k == 'hb':
-                s.data_received(soup.ServerHeartbeat().to_bytes()[1])
+                ext(['data', 'hb'], lambda: s.data_received(soup.ServerHeartbeat().to_bytes()[1]))
             elif k == 'eos':
-                s.data_received(soup.EndOfSession().to_bytes()[1])
+                ext(['data', 'logout'], lambda: s.data_received(soup.EndOfSession().to_bytes()[1]))
             elif k == 'eof':
-                s.connection_lost(None)
+                ext('eof', lambda: s.connection_lost(None))
+            elif k == 'iclose':
+                ext('iclose', s.initiate_close)
+            elif k == 'logout':
+                ext('logout', s.logout)
+            elif k == 'send':
+                if app is not None and hasattr(app, 'send_message') and hasattr(type(app), 'VfMsg'):
+                    def snd():
+                        m = type(app).VfMsg()
+                        m.n = 1
+                        app.send_message(m)
+                    ext('send', snd)
+                else:
+                    ext('send', lambda: s.send_debug('x'))
             elif k in ('close', 'recv'):
-                users[it[1]] = (asyncio.create_task(call(it[1], k)), k)
+                if app is None:
+                    continue
+                if k == 'recv' and any(kk == 'recv' and not t_.done() for t_, kk in users.values()):
+                    continue          # one receive at a time (two concurrent receives are API misuse, outside the model)
+                t_ = loop.create_task(call(it[1], k), name=f'W{it[1]}')
+                t_.first_ev = ['aclose' if k == 'close' else 'arecv', it[1]]
+                users[('W', it[1])] = (t_, k)
+            elif k == 'sclose':
+                t_ = loop.create_task(call(it[1], k), name=f'U{it[1]}')
+                t_.first_ev = ['close', it[1]]
+                users[('U', it[1])] = (t_, k)
+            elif k in ('cancel', 'scancel'):
+                key = ('W' if k == 'cancel' else 'U', it[1])
+                if key not in users or users[key][0].done():
+                    continue
+                if users[key][0].first_ev is not None:
+                    await asyncio.sleep(0)          # let the call start before it is cancelled
+                    if users[key][0].done():
+                        continue
+                ext(['acancel' if k == 'cancel' else 'cancel', it[1]], users[key][0].cancel)
             elif k == 'turns':
                 for _ in range(it[1]):
                     await asyncio.sleep(0)
             elif k == 'advance':
                 await asyncio.sleep(it[1])
+            else:
+                raise ValueError(k)
         await asyncio.sleep(settle)
         me = asyncio.current_task()
+        app = holder['app']
+        out['built'] = app is not None
         out['soup_closed'] = s.is_closed()
-        out['app_closed'] = app.closed
+        out['app_closed'] = bool(app.closed) if app is not None else None
         out['tcloses'] = len(tr.closes)
-        out['pending'] = sorted(u for u, (t_, k) in users.items() if not t_.done())
-        out['pending_kinds'] = {u: k for u, (t_, k) in users.items() if not t_.done()}
-        out['alive'] = sorted(t_.get_name() for t_ in loop.tasks_created if not t_.done() and t_ is not me
+        out['pending'] = sorted(u for (w, u), (t_, k) in users.items() if not t_.done() and w == 'W')
+        out['pending_kinds'] = {u: k for (w, u), (t_, k) in users.items() if not t_.done() and w == 'W'}
+        out['alive'] = sorted((rec.role_of(t_) or t_.get_name()) for t_ in loop.tasks_created if not t_.done() and t_ is not me
                               and not any(t_ is x[0] for x in users.values()))
-        out['task_exceptions'] = [(t_.get_name(), err_name(t_.exception())) for t_ in loop.tasks_created
+        out['task_exceptions'] = [(rec.role_of(t_) or t_.get_name(), err_name(t_.exception())) for t_ in loop.tasks_created
                                   if t_.done() and not t_.cancelled() and t_ is not me and t_.exception() is not None]
+        q1, q2 = [], []
+        try:
+            q1 = [inner_token(m) for m in list(s._msg_queue._msg_queue._queue)]
+            if app is not None:
+                q2 = [token(m) for m in list(app._message_queue._msg_queue._queue)]
+        except Exception:   # noqa
+            q1 = q2 = None
+        out['q1'], out['q2'] = q1, q2
 
+    c_task = asyncio.Task
+    asyncio.Task = _tasks._PyTask        # the library tests `isinstance(task, asyncio.Task)`; our step-logging tasks are pure-python tasks
+    REC = rec
     try:
         loop.run(main())
     finally:
+        asyncio.Task = c_task
+        REC = None
         out['loop_exceptions'] = [str(c.get('message')) for c in loop.loop_exceptions]
         loop.shutdown()
+    out['log'] = rec.log
+    # the flat observation list the oracles read (application level, old format)
+    obs = []
+    for _, os_, _ in rec.log:
+        for o in os_:
+            if o in ('cbEnter', 'cbExit'):
+                obs.append(o)
+            elif isinstance(o, list) and o[0] in ('msgEnter', 'msgExit', 'msgAbandon', 'msgRaise'):
+                obs.append((o[0], o[1]))
+            elif isinstance(o, list) and o[0] in ('aret', 'cret'):
+                obs.append(('ret', o[1], tuple(o[2]) if isinstance(o[2], list) else o[2]))
+            elif isinstance(o, list) and o[0] in ('hclose', 'cbclose'):
+                obs.append(('inner-close', o[-1]))
+            elif isinstance(o, list) and o[0] == 'raised':
+                obs.append(('raised', o[1]))
     out['obs'] = obs
     return out
 
 
-def gen_app_scenario(rng):
-    kind = rng.choice(['itch', 'ouch', 'sqf'])
+def run_sc(sc):
+    sc = norm_scenario(sc)
+    return run_app_scenario(sc['kind'], sc['mode'], sc['cb_beh'], sc['msg_beh'], sc['script'], hb=sc['hb'], settle=sc['settle'],
+                            has_cb=sc['has_cb'], first=sc['first'])
+
+
+# ------------------------------------------------------------------ model side
+def beh_sx(b):
+    if isinstance(b, (tuple, list)):
+        return ['awaitcc' if b[0] in ('cc', 'ccsleep') else 'await', b[1]]
+    return b
+
+
+def acfg_sx(sc):
+    sc = norm_scenario(sc)
+    dec = [[n, d] for n, d in sorted(dec_table(sc).items())]
+    mb = [[n, beh_sx(b)] for n, b in sorted(sc['msg_beh'].items())]
+    return ['acfg', ['dec', 'id'] + dec, sc['mode'] == 'callback', ['msgbeh', 'ret'] + mb, bool(sc['has_cb']), beh_sx(sc['cb_beh']),
+            CLOSED_FIRST]
+
+
+def model_request(sc, log):
+    return 'app.run ' + sx(acfg_sx(sc)) + ' ' + ' '.join(sx(ev) for ev, _, _ in log)
+
+
+HARNESS_ONLY = ()
+
+
+def compare(sc, out, ans):
+    """-> list of disagreement strings (empty = model and implementation agree on this run)"""
+    parts = parse_sx(ans)
+    per_ev, final = parts[:-1], {k[0]: k[1:] for k in parts[-1][1:]}
+    log = out['log']
+    if len(per_ev) != len(log):
+        return [f'model answered {len(per_ev)} events for {len(log)}']
+    for i, ((ev, obs, snap), m) in enumerate(zip(log, per_ev)):
+        evs = sx(ev)
+        if m == 'disabled':
+            return [f'event #{i} {evs}: the implementation ran a step the model considers impossible']
+        md = {k[0]: k[1:] for k in m}
+        got = [parse_sx(sx(o))[0] for o in obs if not (isinstance(o, list) and o[0] in HARNESS_ONLY)]
+        if got != md['o']:
+            return [f'event #{i} {evs}: implementation produced {sx(got) if got else "()"}, model predicts {sx(md["o"]) if md["o"] else "()"}']
+        run, alive, flags = snap
+        if sorted(md['r']) != run:
+            return [f'event #{i} {evs}: runnable tasks afterwards: implementation {run}, model {sorted(md["r"])}']
+        if sorted(md['a']) != alive:
+            return [f'event #{i} {evs}: tasks alive afterwards: implementation {alive}, model {sorted(md["a"])}']
+        fl = [parse_sx(sx(x))[0] for x in flags]
+        if fl != md['f']:
+            return [f'event #{i} {evs}: flags (soup closed, app closed, queue stopped, close event, queue length, dispatcher set): '
+                    f'implementation {fl}, model {md["f"]}']
+    if out.get('q1') is not None and [str(x) for x in out['q1']] != list(final.get('q1', [])):
+        return [f'soup queue at the end: implementation {out["q1"]}, model {final.get("q1")}']
+    if out.get('q2') is not None and out['built'] and [str(x) for x in out['q2']] != list(final.get('q2', [])):
+        return [f'application queue at the end: implementation {out["q2"]}, model {final.get("q2")}']
+    return []
+
+
+# ------------------------------------------------------------------ generator
+CB_BEHS = ['ret', ('await', 0), ('await', 2), 'close', 'ret', ('sleep', 1)]
+MSG_BEHS = [('await', 0), ('await', 1), ('await', 3), 'close', 'close', 'raise', ('sleep', 0), ('sleep', 2), ('sleep', 5)]
+CC_BEHS = [('cc', 1), ('ccsleep', 1), ('ccsleep', 4), ('ccsleep', 8)]
+
+
+def gen_app_scenario(rng, kinds=None):
+    kinds = kinds or (KINDS if asn1_available() else KINDS[:3])
+    kind = rng.choice(kinds)
     mode = rng.choice(['pull', 'callback', 'callback'])
-    cb_beh = rng.choice(['ret', ('await', 0), ('await', 2), 'close'])
+    cb_beh = rng.choice(CB_BEHS)
+    has_cb = rng.random() < 0.9
     msg_beh = {}
     script = []
     n = [1]
-    closes = 0
-    users = [0]
-    for _ in range(rng.randint(1, 6)):
+    users = [1]
+    closes = [0]
+    pending_recv = []
+    closers = []
+    sclosers = []
+    dead = [False]
+
+    def toks(k):
+        out = []
+        for _ in range(k):
+            c = rng.random()
+            v = n[0]
+            n[0] += 1
+            if c < 0.08:
+                out.append(('bad', v))
+            elif c < 0.2 and kind == 'asn1':
+                out.append(('empty', v))
+            elif c < 0.14:
+                out.append(('dbg', v))
+            elif c < 0.18:
+                out.append('hb')
+                n[0] -= 1
+            else:
+                out.append(v)
+                if mode == 'callback' and rng.random() < 0.3:
+                    msg_beh[v] = rng.choice(MSG_BEHS + (CC_BEHS if GEN_CLOSE_ON_CANCEL else []))
+        return out
+
+    def new_user():
+        users[0] += 1
+        return users[0]
+
+    def gap():
         c = rng.random()
-        if c < 0.3:
-            script.append(('turns', rng.randint(1, 4)))
-        elif c < 0.4:
-            script.append(('advance', rng.choice([0.0002, 0.001])))
-        if rng.random() < 0.45:
-            k = rng.randint(1, 3)
-            script.append(('data', list(range(n[0], n[0] + k))))
-            if mode == 'callback':
-                for m in range(n[0], n[0] + k):
-                    if rng.random() < 0.2:
-                        msg_beh[m] = rng.choice([('await', 1), ('await', 3), 'close'])
-            n[0] += k
-        elif closes < 3:
-            closes += 1
-            users[0] += 1
-            script.append(rng.choice([('close', users[0]), ('eos',), ('eof',), ('close', users[0])]))
-        if mode == 'pull' and rng.random() < 0.2:
-            users[0] += 1
-            script.append(('recv', users[0]))
-            script.append(('advance', 0.0005))
-    return dict(kind=kind, mode=mode, cb_beh=cb_beh, msg_beh=msg_beh, script=script)
+        if c < 0.4:
+            return []
+        if c < 0.75:
+            return [('turns', rng.randint(1, 4))]
+        if c < 0.95:
+            return [('advance', rng.choice([0.0001, 0.0002, 0.0005, 0.001]))]
+        return [('advance', 0.004 * rng.choice([0.5, 1, 2.5]))]
+
+    first = toks(rng.randint(1, 3)) if rng.random() < 0.25 else []
+    for _ in range(rng.randint(1, 7)):
+        script += gap()
+        c = rng.random()
+        if c < 0.4 and not dead[0]:
+            script.append(('data', toks(rng.randint(1, 4))))
+        elif c < 0.5 and mode == 'pull' and not pending_recv:
+            u = new_user()
+            script.append(('recv', u))
+            pending_recv.append(u)
+        elif c < 0.56 and pending_recv:
+            script.append(('cancel', pending_recv.pop()))
+        elif c < 0.6:
+            script.append(('send',))
+        elif c < 0.64 and closers:
+            script.append(('cancel', rng.choice(closers)))
+        elif c < 0.67 and sclosers:
+            script.append(('scancel', rng.choice(sclosers)))
+        elif closes[0] < 3:
+            closes[0] += 1
+            k = rng.random()
+            if k < 0.4:
+                u = new_user()
+                script.append(('close', u))
+                closers.append(u)
+            elif k < 0.55 and not dead[0]:
+                script.append(('eos',))
+                dead[0] = True
+            elif k < 0.7:
+                script.append(('eof',))
+                dead[0] = True
+            elif k < 0.78:
+                u = new_user()
+                script.append(('sclose', u))
+                sclosers.append(u)
+            elif k < 0.84:
+                script.append(('iclose',))
+            elif k < 0.9:
+                script.append(('logout',))
+            elif k < 0.94 and not dead[0]:
+                script.append(('data', ['badframe']))
+                dead[0] = True
+            else:
+                script.append(('advance', 0.004 * 2.6))
+        if pending_recv and rng.random() < 0.4:
+            pending_recv.pop()
+    if mode == 'pull' and rng.random() < 0.3:
+        # a receive after everything else (often on the closed session: leftovers first, then end-of-queue)
+        script += gap() + [('recv', new_user())]
+    return dict(kind=kind, mode=mode, cb_beh=cb_beh, has_cb=has_cb, msg_beh=msg_beh, script=script, first=first)
+
+
+# ------------------------------------------------------------------ oracles (implementation only)
+def sent_values(sc):
+    """the decodable application messages carried by the bytes the peer sent, in order, up to the first end-of-session /
+    malformed frame (token of the decoded value)"""
+    out = []
+    for it in [('data', sc.get('first', []))] + list(sc['script']):
+        if it[0] in ('eos',):
+            break
+        if it[0] == 'data':
+            stop = False
+            for tok in it[1]:
+                if tok in ('eos', 'badframe'):
+                    stop = True
+                    break
+                if isinstance(tok, int):
+                    out.append(tok)
+                elif isinstance(tok, (tuple, list)) and tok[0] == 'bad' and sc['kind'] == 'asn1':
+                    out.append(FALSY)
+                elif isinstance(tok, (tuple, list)) and tok[0] == 'empty':
+                    out.append(FALSY)
+            if stop:
+                break
+    return out
+
+
+def late_cancels(sc, out):
+    """receive_message() calls cancelled after the helper task already held a message (the known finding
+    C04-late-cancel-loses-message, here on the application queue)"""
+    n = 0
+    evs = [ev for ev, _, _ in out['log']]
+    rets = {o[1]: o[2] for o in out['obs'] if isinstance(o, tuple) and o[0] == 'ret'}
+    for ic, ev in enumerate(evs):
+        if isinstance(ev, list) and ev[0] == 'acancel' and rets.get(ev[1]) == 'cancelled':
+            starts = [k for k, e in enumerate(evs[:ic]) if e == ['arecv', ev[1]]]
+            if starts and sum(1 for e in evs[starts[-1]:ic] if e == ['run', 'V2']) >= 2:
+                n += 1
+    return n
 
 
 def app_oracle(sc, out, prop):
     """property statements on the application session; returns list of (message, kind)"""
+    sc = norm_scenario(sc)
     v = []
     obs = out['obs']
-    trig = [it for it in sc['script'] if it[0] in ('close', 'eos', 'eof')]
-    sent = [n for it in sc['script'] if it[0] == 'data' for n in it[1]]
-    delivered = [o[1] for o in obs if isinstance(o, tuple) and o[0] == 'msgEnter'] + \
-        []
+    if not out.get('built', True):
+        return v
+    trig = [it for it in sc['script'] if it[0] in ('close', 'eos', 'eof', 'sclose', 'iclose', 'logout')
+            or (it[0] == 'data' and any(t in ('eos', 'badframe') for t in it[1]))]
+    sent = sent_values(sc)
+    delivered = [o[1] for o in obs if isinstance(o, tuple) and o[0] == 'msgEnter']
     recvd = [o[2][1] for o in obs if isinstance(o, tuple) and o[0] == 'ret' and isinstance(o[2], tuple)]
+    raised = [o for o in obs if isinstance(o, tuple) and o[0] == 'raised']
     if prop == 'C04':
         seen = delivered if sc['mode'] == 'callback' else recvd
         if seen != sent[:len(seen)]:
-            v.append((f'application session handed {seen} to the consumer, the peer sent {sent}', 'scenario'))
+            it, gaps, ok = iter(sent), 0, True
+            for d in seen:
+                for w in it:
+                    if w == d:
+                        break
+                    gaps += 1
+                else:
+                    ok = False
+                    break
+            kind = 'late-cancel-lost-message' if (ok and 0 < gaps <= late_cancels(sc, out)) else 'scenario'
+            v.append((f'application session handed {seen} to the consumer, the peer sent {sent}', kind))
+        for ev, _, _ in out['log']:
+            if isinstance(ev, list) and ev[0] == 'acancel':
+                r = [o[2] for o in obs if isinstance(o, tuple) and o[0] == 'ret' and o[1] == ev[1]]
+                recv_user = any(it == ('recv', ev[1]) for it in sc['script'])
+                if recv_user and r and isinstance(r[0], tuple):
+                    v.append((f'receive_message() of user {ev[1]} was cancelled while pending but returned {r[0]}', 'scenario'))
+                if recv_user and r and r[0] == 'eoq' and not out['soup_closed']:
+                    v.append((f'receive_message() of user {ev[1]} was cancelled on an open session but raised EndOfQueue', 'scenario'))
         return v
     if prop in ('C05', 'C06'):
         inner = [o for o in obs if isinstance(o, tuple) and o[0] == 'inner-close']
         if out['loop_exceptions'] or out['task_exceptions']:
             v.append((f'exception escaped: {out["loop_exceptions"] or out["task_exceptions"]}', 'scenario'))
-        if not trig:
+        if raised:
+            v.append((f'a synchronous API call raised {raised[0][1]}', 'scenario'))
+        if not (trig or out['soup_closed']):
             return v
         ne, nx = obs.count('cbEnter'), obs.count('cbExit')
+        # the user cancelling the very task that runs the close callback aborts it: the user's own doing
+        self_abort = any(isinstance(ev, list) and ev[0] == 'cancel' for ev, _, _ in out['log']) and ne == 1 and nx == 0
         blocked_close = [u for u, k in out['pending_kinds'].items() if k == 'close']
+        cancelled_closers = {ev[1] for ev, _, _ in out['log'] if isinstance(ev, list) and ev[0] == 'acancel'}
         if prop == 'C05':
-            if sc['cb_beh'] == 'close' and ne == 1 and nx == 0:
+            if sc['cb_beh'] == 'close' and sc['has_cb'] and ne == 1 and nx == 0 and not self_abort:
                 v.append(('application close callback called app.close() and never returned (close() blocks forever)',
                           'app-close-from-close-callback'))
                 return v
             if not out['soup_closed'] or out['tcloses'] < 1:
-                v.append((f'close trigger {trig[0][0]} but soup session closed={out["soup_closed"]}, transport closes={out["tcloses"]}', 'scenario'))
+                v.append((f'close trigger {trig[0][0] if trig else "?"} but soup session closed={out["soup_closed"]}, transport closes={out["tcloses"]}', 'scenario'))
+            if self_abort:
+                return v
             if not out['app_closed']:
                 v.append(('the application session does not report closed', 'scenario'))
-            if ne != 1 or nx != 1:
+            if sc['has_cb'] and (ne != 1 or nx != 1):
                 v.append((f'application close callback entered {ne} times, completed {nx} times', 'scenario'))
+            if not sc['has_cb'] and (ne or nx):
+                v.append(('application close callback observed although none is configured', 'scenario'))
+            if sc['has_cb'] and ne == 1:
+                e = obs.index('cbEnter')
+                late = [o for o in obs[e:] if isinstance(o, tuple) and o[0] == 'msgEnter']
+                if late:
+                    v.append((f'application message callback for {late[0][1]} started after the close callback was entered', 'scenario'))
             if blocked_close:
                 v.append((f'app.close() of user(s) {blocked_close} never returned', 'scenario'))
             bad = [o for o in obs if isinstance(o, tuple) and o[0] == 'ret' and o[2] not in ('ok',) and
-                   any(it == ('close', o[1]) for it in sc['script'])]
+                   any(it == ('close', o[1]) for it in sc['script']) and not (o[2] == 'cancelled' and o[1] in cancelled_closers)]
             if bad:
                 v.append((f'app.close() ended with {bad[0][2]}', 'scenario'))
             if any(i[1] != 'ok' for i in inner):
                 from_msg = any(b == 'close' for b in sc['msg_beh'].values())
-                v.append((f'app.close() called from a callback ended with {[i[1] for i in inner if i[1] != "ok"][0]}',
-                          'app-close-from-message-callback' if from_msg and [i[1] for i in inner if i[1] != 'ok'][0] == 'cancelled' else 'scenario'))
+                first_bad = [i[1] for i in inner if i[1] != 'ok'][0]
+                v.append((f'app.close() called from a callback ended with {first_bad}',
+                          'app-close-from-message-callback' if from_msg and first_bad == 'cancelled' else 'scenario'))
         else:
             if out['soup_closed'] and out['alive']:
                 v.append((f'tasks still running after the application session closed: {out["alive"]}', 'scenario'))
             pend_recv = [u for u, k in out['pending_kinds'].items() if k == 'recv']
-            if out['soup_closed'] and pend_recv and nx:
+            if out['soup_closed'] and pend_recv and (nx or not sc['has_cb']) and not self_abort:
                 v.append((f'receive_message() of user(s) {pend_recv} still blocked after close', 'scenario'))
+            if sc['has_cb'] and nx == 1:
+                x = obs.index('cbExit')
+                late = [o for o in obs[x:] if isinstance(o, tuple) and o[0] in ('msgEnter', 'msgExit', 'msgRaise')]
+                if late:
+                    v.append((f'application message callback activity {late[0]} after the close callback had returned', 'scenario'))
     return v
+
+
+# ------------------------------------------------------------------ family runner (called from sess_checks.run_family)
+def sc_to_json(sc):
+    sc = dict(sc)
+    sc['msg_beh'] = {str(k): v for k, v in sc['msg_beh'].items()}
+    return sc
+
+
+def sc_from_json(sc):
+    fix = lambda b: tuple(b) if isinstance(b, list) else b
+    ftok = lambda t: tuple(t) if isinstance(t, list) else t
+
+    def fitem(it):
+        it = list(it)
+        if it[0] == 'data':
+            return ('data', [ftok(t) for t in it[1]])
+        return tuple(it)
+    sc = dict(sc)
+    sc['cb_beh'] = fix(sc['cb_beh'])
+    sc['msg_beh'] = {int(k): fix(b) for k, b in sc['msg_beh'].items()}
+    sc['script'] = [fitem(x) for x in sc['script']]
+    sc['first'] = [ftok(t) for t in sc.get('first', [])]
+    return sc
+
+
+def corpus_scenarios(prop):
+    import json
+    from common import VERIF
+    out = []
+    for p in (prop, 'C05'):
+        d = os.path.join(VERIF, 'corpus', p)
+        if os.path.isdir(d):
+            for fn in sorted(os.listdir(d)):
+                if fn.startswith('app-') and fn.endswith('.json'):
+                    out.append((sc_from_json(json.load(open(os.path.join(d, fn)))['app_scenario']), 'corpus:' + fn))
+        if p == 'C05':
+            break
+    return out
+
+
+def run_family_app(ctx, prop):
+    """application scenarios: implementation run, replay through the Lean product machine, property oracle"""
+    rng = ctx.rng
+    n_app = 300 if ctx.tier == 'quick' else 6000
+    cases = corpus_scenarios(prop)
+    for _ in range(n_app):
+        r = random.Random(rng.random())
+        cases.append((gen_app_scenario(r), 'gen'))
+    done, reqs = [], []
+    for sc, tag in cases:
+        rep = {'kind': 'scenario', 'app_scenario': sc_to_json(sc)}
+        try:
+            out = run_sc(sc)
+        except Exception as e:   # noqa
+            ctx.violation(f'running the application-session scenario raised {type(e).__name__}: {e}', rep)
+            continue
+        done.append((sc, tag, out))
+        reqs.append(model_request(sc, out['log']))
+    use_model = bool(ctx.driver and ctx.driver.available and ctx.lean.build_ok)
+    answers = ctx.driver.ask(reqs) if use_model else [None] * len(reqs)
+    n_events = 0
+    for (sc, tag, out), ans in zip(done, answers):
+        n_events += len(out['log'])
+        ctx.case({'app_scenario': {k: (v if k != 'script' else v[:8]) for k, v in sc_to_json(sc).items()}}, nontrivial=len(out['obs']) >= 2,
+                 sample_every=997)
+        ctx.count('app:' + sc['kind'] + ':' + sc['mode'])
+        for ev, _, _ in out['log']:
+            if isinstance(ev, list) and ev[0] == 'run' and ev[1] in ('D2', 'V2'):
+                ctx.count('app-steps:' + ev[1])
+            elif isinstance(ev, list) and ev[0] in ('aclose', 'arecv', 'acancel'):
+                ctx.count('app-ext:' + ev[0])
+        for what, kind in app_oracle(sc, out, prop):
+            ctx.violation(what, {'kind': kind, 'app_scenario': sc_to_json(sc)})
+        if ans is not None:
+            try:
+                dis = compare(sc, out, ans)
+            except Exception as e:   # noqa
+                dis = [f'could not compare: {type(e).__name__}: {e}']
+            if dis:
+                ctx.disagree('application session: ' + dis[0], {'kind': 'scenario', 'app_scenario': sc_to_json(sc)})
+    ctx.cov['app_events_replayed'] = n_events
+    ctx.notes.append('application-session layer (ITCH/OUCH/SQF/ASN.1 ClientSession: second queue, its dispatcher and receive helper, the '
+                     'close event, _on_soup_message, _on_soup_close): every scenario is replayed event by event through the Lean product '
+                     'machine Model/AppSession.lean (observables, runnable and alive task sets, flags) and evaluated by the property oracle'
+                     + ('' if use_model else ' — MODEL UNAVAILABLE in this run: oracle only'))
+
+
+def replay_app(ctx, prop, rep):
+    sc = sc_from_json(rep['app_scenario'])
+    out = run_sc(sc)
+    ctx.cov['rule'] = 'replay of an application-session scenario'
+    ctx.case('app-replay')
+    ctx.case('replay-marker')
+    print('scenario:', sc)
+    print('log:', [(sx(e), [sx(o) if not isinstance(o, str) else o for o in os_]) for e, os_, _ in out['log']
+                   if os_ or not (isinstance(e, list) and e[0] == 'run')])
+    print('observed:', out['obs'], 'closed', out['soup_closed'], out['app_closed'], 'pending', out['pending'], 'alive', out['alive'])
+    for what, kind in app_oracle(sc, out, prop):
+        print('ORACLE:', what)
+        ctx.violation(what, {'kind': kind, 'app_scenario': sc_to_json(sc)})
+    if ctx.driver and ctx.driver.available:
+        ans = ctx.driver.ask([model_request(sc, out['log'])])[0]
+        for d in compare(sc, out, ans):
+            print('MODEL:', d)
+            ctx.disagree('application session: ' + d, {'kind': 'scenario', 'app_scenario': sc_to_json(sc)})
